@@ -379,7 +379,22 @@ func (w *world) project(method string, r *Resp) respRec {
 	return rs
 }
 
+// onlyCases parses VERIF_CASES (1-based plan indices) for replays.
+func onlyCases(n int) []int {
+	var out []int
+	for _, f := range strings.Split(os.Getenv("VERIF_CASES"), ",") {
+		if v, err := strconv.Atoi(strings.TrimSpace(f)); err == nil && v >= 1 && v <= n {
+			out = append(out, v-1)
+		}
+	}
+	sort.Ints(out)
+	return out
+}
+
 func selectCases(plan []planCase, tier string, seed int64) []int {
+	if only := onlyCases(len(plan)); len(only) > 0 {
+		return only
+	}
 	max := len(plan)
 	if v, err := strconv.Atoi(os.Getenv("VERIF_ROUTES_MAX")); err == nil && v > 0 {
 		max = v
@@ -432,14 +447,14 @@ func clientVerify(addr string, rl *RealLog) map[string]any {
 		PublicKey:        rl.Key.Public(),
 		HTTPClient:       &http.Client{Transport: tr, Timeout: 20 * time.Second},
 		UserAgent:        "verif-harness (verif@verif.invalid)",
-		Timeout:          60 * time.Second,
+		Timeout:          20 * time.Second,
 		ConcurrencyLimit: 8,
 		Logger:           logger,
 	})
 	if err != nil {
 		return fail("NewClient: %v", err)
 	}
-	ctx, cancel := context.WithTimeout(context.Background(), 120*time.Second)
+	ctx, cancel := context.WithTimeout(context.Background(), 60*time.Second)
 	defer cancel()
 	cp, _, err := c.Checkpoint(ctx)
 	if err != nil {
